@@ -490,12 +490,12 @@ def _is_barrier(x, expr_names):
     return False
 
 
-def inline_new_locals(fn, ref_names) -> int:
+def inline_new_locals(fn, ref_names, limit: int = 8) -> int:
     ref_names = set(ref_names)
     changed = 0
     progress = True
     rounds = 0
-    while progress and rounds < 8:
+    while progress and rounds < limit:
         progress = False
         rounds += 1
         for block_owner in [fn] + [x for x in ast.walk(fn) if x is not fn]:
